@@ -18,7 +18,9 @@ def checkLine (line : String) : String :=
     match res with
     | .error e => s!"BAD {modName} hist={hist} i={idx} {e}"
     | .ok none => s!"ok {modName}"
-    | .ok (some d) => s!"DIFF {modName} hist={hist} i={idx} {d}"
+    | .ok (some d) =>
+      let kind := match j.getObjVal? "op" with | .ok o => Driver.opKind o | .error _ => "?"
+      s!"DIFF {modName} hist={hist} i={idx} op={kind} {d}"
 
 partial def loop (h : IO.FS.Stream) (out : IO.FS.Stream) (n ok diff bad : Nat) : IO (Nat × Nat × Nat × Nat) := do
   let line ← h.getLine
